@@ -185,6 +185,8 @@ Definition sstep (ws : Z) (q : list tv) (o : op) : option (list tv * out) :=
                | [] => None
                end
   | OBytes => Some (q, RBytes (encs ws q))
+  | OReset => Some ([], RLen 0)
+  | ORaw bs => let q' := q ++ map (fun x => (KU8, x)) bs in Some (q', RLen (length (encs ws q')))
   end.
 
 Fixpoint srun (ws : Z) (q : list tv) (ops : list op) : option (list tv * list out) :=
@@ -200,13 +202,23 @@ Fixpoint srun (ws : Z) (q : list tv) (ops : list op) : option (list tv * list ou
   end.
 
 Definition wf_op (ws : Z) (o : op) : Prop :=
-  match o with OWrite k v => wf ws k v | _ => True end.
+  match o with OWrite k v => wf ws k v | ORaw bs => Forall is_byte bs | _ => True end.
+
+(* raw bytes are the same thing as that many uint8 values *)
+Lemma encs_raw ws bs : Forall is_byte bs -> encs ws (map (fun x => (KU8, x)) bs) = bs.
+Proof.
+  induction 1 as [|x l Hx _ IH]; [reflexivity|]. cbn [map]. rewrite encs_cons, IH. cbn [fst snd].
+  unfold enc. cbn [write]. unfold write_u8. cbn [app]. f_equal. apply wrapu_small. exact Hx.
+Qed.
+
+Lemma wf_raw ws bs : Forall is_byte bs -> Forall (wf_tv ws) (map (fun x => (KU8, x)) bs).
+Proof. induction 1; cbn [map]; constructor; [assumption|assumption]. Qed.
 
 Lemma step_refines ws q o q' x : word_size ws -> Forall (wf_tv ws) q -> wf_op ws o ->
   sstep ws q o = Some (q', x) ->
   step ws (encs ws q) o = (encs ws q', x) /\ Forall (wf_tv ws) q'.
 Proof.
-  intros Hws Hq Ho Hs. destruct o as [k v|k|k|]; cbn [sstep step] in *.
+  intros Hws Hq Ho Hs. destruct o as [k v|k|k| | |bs]; cbn [sstep step] in *.
   - inversion Hs; subst. rewrite write_app. rewrite encs_app. cbn [encs map concat fst snd].
     rewrite app_nil_r. split; [reflexivity|]. apply Forall_app; split; [assumption|]. constructor; [exact Ho|constructor].
   - destruct q as [|[k' v'] q0]; [discriminate|]. destruct (kind_eq_dec k k') as [->|]; [|discriminate].
@@ -216,6 +228,9 @@ Proof.
     inversion Hs; subst. inversion Hq as [|? ? Hx Hq0]; subst. rewrite encs_cons. cbn [fst snd].
     rewrite peek_enc by (assumption || exact Hx). split; [reflexivity|assumption].
   - inversion Hs; subst. split; [reflexivity|assumption].
+  - inversion Hs; subst. split; [reflexivity|constructor].
+  - inversion Hs; subst. rewrite encs_app, (encs_raw ws bs Ho). split; [reflexivity|].
+    apply Forall_app; split; [assumption|apply wf_raw; exact Ho].
 Qed.
 
 (* refinement: on every operation sequence inside the contract the buffer behaves as the queue *)
@@ -305,3 +320,15 @@ Proof.
     destruct (run ws (write ws k v b) (map wop vs)) as [b' xs]. cbn [fst] in *.
     rewrite IH, write_app, encs_cons, <- app_assoc. reflexivity.
 Qed.
+
+(* ---- what must not change ------------------------------------------------------------------- *)
+Lemma read_suffix ws k b : snd (read ws k b) = skipn (width ws k) b.
+Proof.
+  unfold read, read_raw. destruct b as [|x b]; [destruct (width ws k); reflexivity|]. reflexivity.
+Qed.
+
+Lemma peek_keeps ws k b : fst (step ws b (OPeek k)) = b.
+Proof. cbn [step]. destruct (peek ws k b); reflexivity. Qed.
+
+Lemma enc_bytes ws k v : word_size ws -> wf ws k v -> Forall is_byte (enc ws k v).
+Proof. intros Hws Hwf. rewrite enc_le_put by assumption. apply le_put_bytes. Qed.
